@@ -75,7 +75,7 @@ impl Property for C02 {
         "C02"
     }
     fn rule(&self) -> String {
-        "a rendering of a generated abstract document (C01's generator) to which 1-2 mutators are applied: 32 token-level breaking mutators aimed at the well-formedness \
+        "a rendering of a generated abstract document (C01's generator) to which 1-2 mutators are applied: 33 token-level breaking mutators aimed at the well-formedness \
          rules (end-tag rename/delete/swap, duplicate attribute, '<' / bare '&' in attribute value or content, '--' in comment, ']]>' in character data, undeclared or \
          recursive or external/unparsed entity reference, missing/multiple roots, text after the root, misplaced XML declaration, reserved PI target, illegal characters, \
          bad name start, character reference to a non-Char, missing quote/=/space, truncation, DOCTYPE after the root, unterminated comment) and plain character-level \
@@ -167,6 +167,10 @@ impl Property for C02 {
 
 /// hand-written ill-formed classics (each judged by the recognizer like any other case)
 const HAND: &[&str] = &[
+    // WFC PEs in Internal Subset, also for an entity that is never referenced
+    "<!DOCTYPE a [<!ENTITY e \"%p;\">]><a/>",
+    "<!DOCTYPE a [<!ENTITY % p \"x\"><!ENTITY e \"%p;\">]><a/>",
+    "<!DOCTYPE a [<!ENTITY e '50% off'>]><a/>",
     // 4.2: of several declarations of one entity the first is binding
     "<!DOCTYPE a [<!ENTITY e \"&u;\"><!ENTITY e \"x\">]><a>&e;</a>",
     "<!DOCTYPE a [<!ENTITY e \"a&e;\"><!ENTITY e \"x\">]><a>&e;</a>",
